@@ -87,7 +87,7 @@ Definition read_literal (ft : ftable) (t : ptable) (v : jv) : option sexp :=
                         | _ => None
                         end
                       else if String.eqb dt (spec_xsd_uri ++ "boolean") then
-                        match parse_boolean s with
+                        match xsd_boolean s with
                         | Some b => Some (L [A "bool"; A (if b then "true" else "false")])
                         | None => Some (L [A "lit"; A s; A dt; A "none"])
                         end
